@@ -14,8 +14,8 @@ PARTIAL = [
     "A2.5 (basis_function_ders_one, literal model) = column of the A2.3 specification table is proved for order <= degree on half-open spans; at the last knot A2.5 returns zeros (no boundary special case, unlike A2.4) - covered only by the closed form",
     "support of a Cox-de Boor function without a span index (coxDeBoor_support, _zero_set, _support_by_multiplicity): for sorted knots, every degree / index and EVERY number u, N_{i,p}(u) >= 0 and N_{i,p}(u) != 0 iff U_i <= u < U_{i+p+1} and (U_i < u or U_{i+p} <= u) - proved in full; A2.5 at the last knot as coded (basisFunDersOne_last_knot: order+1 zeros for every accepted index and every order, also order > degree - the guard returns first) is proved, and that it is NOT the left-limit value / derivatives there (basisFunDersOne_last_knot_differs: A2.5 gives 0, A2.4 gives 1, row 0 of A2.3 on the last span gives 1; witness with derivatives 0,0,0 against 1,2,2); the exact oracle judges A2.5 only for u below the domain end, at the last knot only the correspondence stream bdersone (model = code) covers it - recorded observation, supersedes the last clause of the A2.5 item above",
 ]
-PARTIAL.append("F-03b (open, recorded): for a knot vector whose END knot is repeated more than p+1 times, A2.4 (basis_function_one) at u = the last knot returns 1 for the LAST function (the special case of The NURBS Book, `i == m-p-1 and u == U[m]`), which has empty support there, and 0 for the last function with non-empty support, whose Cox-de Boor left limit (= the A2.2 entry on the span the repaired search finds) is 1; the A2.4 sentence above ('the last function at the last knot returns 1 ... proved equal to the A2.2 entry of the last span for end-clamped vectors') is about end-clamped vectors with EXACTLY p+1 equal end knots (KnotsOk: non-empty last span), where the last function is the one with the value 1; end multiplicity > p+1 is outside the model, judged by the exact oracle of the stream empty-last-span (kind span-end, every function index) and classified as F-03b; unclamped vectors with U_{n-1} = U_n (end-of-domain multiplicity <= p) are judged too and A2.4 is right there")
-PARTIAL.append("knot vectors with an empty last domain span are outside the model (theorems assume KnotsOk); the repaired step-back of the span searches (F-01b) is checked by the exact oracle only (stream empty-last-span: span-lin / span-bin with a model line strictly inside the domain, kind span-end without one at u = U_n; the driver ops that search a span / evaluate answer ERR when the span the model finds is empty)")
+PARTIAL.append("F-03b (open, recorded): for a knot vector whose END knot is repeated more than p+1 times, A2.4 (basis_function_one) at u = the last knot returns 1 for the LAST function (the special case of The NURBS Book, `i == m-p-1 and u == U[m]`), which has empty support there, and 0 for the last function with non-empty support, whose Cox-de Boor left limit (= the A2.2 entry on the span the repaired search finds) is 1; the A2.4 sentence above ('the last function at the last knot returns 1 ... proved equal to the A2.2 entry of the last span for end-clamped vectors') is about end-clamped vectors with EXACTLY p+1 equal end knots (KnotsOk: non-empty last span), where the last function is the one with the value 1; for end multiplicity > p+1 A2.4 has no theorem, it is judged by the exact oracle of the stream empty-last-span (kind span-end, every function index) and classified as F-03b; unclamped vectors with U_{n-1} = U_n (end-of-domain multiplicity <= p) are judged too and A2.4 is right there")
+PARTIAL.append("knot vectors with an empty last domain span (F-01b, repaired): the span statements are proved for the literal models of the REPAIRED searches (findSpanLinearR / findSpanBinR, Model/SpanR.lean: first loop, then the step back while the span is empty; tolerance shortcut + step back, then the unchanged bisection) - findSpanR_eq_unrepaired (= the searches without step back whenever the span found is not empty, so every KnotsOk theorem transfers), findSpanLinearR_spec (every sorted knot vector with U_p < U_n, every u of the closed domain: legal NON-EMPTY span containing u, half-open below U_n, the LAST NON-EMPTY span at U_n), findSpanLinearR_unique, findSpanBinR_eq_linearR (tolerance hypothesis stated for the last non-empty span), witness findSpanR_witness_F01b; correspondence with the real functions at u = U_n too (stream empty-last-span: kind span-end now has a model line `span linr` / `span binr` besides the oracle; ordinary knot vectors: stream ordinary-r, kinds span-linr / span-binr). NOT lifted: the whole-domain composition of the search with A2.4 (basisFunOne_eq_basisFuns_domain keeps its end-clamped hypothesis); the ops `span lin` / `span bin` (findSpanLinear / findSpanBin, no step back) still answer ERR when the span they find is empty")
 ASSUMPTIONS = ["distinct knots are further apart than the tolerances 1e-5 (binary search) / 1e-7 (multiplicity), except in the tolerance-probe stream"]
 
 
@@ -79,10 +79,12 @@ def gen(rng, tier):
             d['i'] = rng.randint(k0 - p, k0) if rng.random() < .8 else rng.randint(0, n - 1)
             out.append(Case('basisone', "basisone %d %s %d %s" % (p, U, d['i'], fr(u)), d, tags=('full-multiplicity',)))
     # empty-last-span (F-01b, repaired): knot vectors with U_{n-1} = U_n.  Strictly inside the domain: correspondence
-    # (model line) + oracle; AT u = U_n the repaired find_span_linear / find_span_binsearch step back to the last
-    # NON-EMPTY span, which the Lean model does not have (theorems assume KnotsOk): no model line, the exact oracle alone
-    # demands the last non-empty span and the Cox-de Boor left-limit basis values there
-    for _ in range(24 if tier == 'quick' else 300):
+    # (model line, unrepaired AND repaired model searches) + oracle; AT u = U_n the repaired find_span_linear /
+    # find_span_binsearch step back to the last NON-EMPTY span: model line with the repaired model searches
+    # (findSpanLinearR / findSpanBinR, Model/SpanR.lean; the unrepaired findSpanLinear / findSpanBin have no step back and
+    # their ops answer ERR there) + the exact oracle, which demands the last non-empty span and the Cox-de Boor left-limit
+    # basis values there
+    for _i in range(24 if tier == 'quick' else 300):
         p = rng.randint(1, 5)
         kv, n = G.knots_empty_last(rng, p)
         U = show_list(kv)
@@ -91,7 +93,13 @@ def gen(rng, tier):
         kind = rng.choice(['lin', 'bin'])
         out.append(Case('span-' + kind, "span %s %d %d %s %s" % (kind, p, n, U, fr(u)), dict(p=p, n=n, kv=kv, u=u), tags=('empty-last-span', 'inside')))
         G.count('empty_last_span', ('span', 'p+2' if kv[n] == kv[-1] else 'end-multiplicity'))
-        out.append(Case('span-end', None, dict(p=p, n=n, kv=kv, u=kv[n]), tags=('empty-last-span', 'at-end')))
+        # at the domain end: model line with the REPAIRED searches of the model (findSpanLinearR / findSpanBinR, ops
+        # `span linr` / `span binr`, alternating) + the oracle (which judges both searches and the basis values)
+        srch = ('linr', 'binr')[_i % 2]
+        out.append(Case('span-end', "span %s %d %d %s %s" % (srch, p, n, U, fr(kv[n])), dict(p=p, n=n, kv=kv, u=kv[n], search=srch),
+                        tags=('empty-last-span', 'at-end')))
+        # … and the repaired searches strictly inside that domain too
+        out.append(Case('span-' + kind + 'r', "span %sr %d %d %s %s" % (kind, p, n, U, fr(u)), dict(p=p, n=n, kv=kv, u=u), tags=('empty-last-span', 'inside')))
     # A2.5 basis_function_ders_one: active functions, arbitrary functions, order up to the degree and
     # (guard stream) above it
     for _ in range(70 if tier == 'quick' else 1200):
@@ -137,6 +145,24 @@ def gen(rng, tier):
         for u in (t - TOL_SPAN / 4, t + (1 - t) / 2, t):
             d = dict(p=p, n=5, kv=kv, u=u)
             out.append(Case('span-bin', "span bin 2 5 %s %s" % (show_list(kv), fr(u)), d, tags=('tol-probe',)))
+            out.append(Case('span-binr', "span binr 2 5 %s %s" % (show_list(kv), fr(u)), dict(d), tags=('tol-probe',)))
+    # the REPAIRED model searches (findSpanLinearR / findSpanBinR) on ORDINARY knot vectors: they must agree with the code
+    # everywhere (parameters on knots / ends included), not only on the empty-last-span stream
+    for _ in range(80 if tier == 'quick' else 1200):
+        p = rng.randint(1, maxp)
+        kv, n = G.knots(rng, p, clamped=rng.random() < .7)
+        u = G.param(rng, kv, p, n)
+        knd = 'lin' if rng.random() < .5 else 'bin'
+        out.append(Case('span-%sr' % knd, "span %sr %d %d %s %s" % (knd, p, n, show_list(kv), fr(u)), dict(p=p, n=n, kv=kv, u=u), tags=('ordinary-r',)))
+    # … and the tolerance shortcut of the repaired binary search on an EMPTY last span, parameter within the tolerance
+    # below the domain end (the step back from n-1 must land on the span of u) and exactly on it
+    for p, kv in ((2, [F(0)] * 3 + [F(1, 2)] + [F(1)] * 4), (3, [F(0), F(1, 4), F(1, 2), F(3, 4), F(1), F(1), F(1), F(3, 2), F(2), F(3)])):
+        n = len(kv) - p - 1
+        assert kv[n - 1] == kv[n]
+        for u in (kv[n] - TOL_SPAN / 2, kv[n] - TOL_SPAN * 2, kv[n]):
+            for knd in ('lin', 'bin'):
+                out.append(Case('span-end' if u == kv[n] else 'span-%sr' % knd, "span %sr %d %d %s %s" % (knd, p, n, show_list(kv), fr(u)),
+                                dict(p=p, n=n, kv=kv, u=u, search=knd + 'r'), tags=('empty-last-span', 'tol-probe')))
     return out
 
 
@@ -147,6 +173,11 @@ def impl(c):
     if k == 'span-lin':
         return str(helpers.find_span_linear(d['p'], _kv(d), d['n'], q(d['u'])))
     if k == 'span-bin':
+        return str(helpers.find_span_binsearch(d['p'], _kv(d), d['n'], q(d['u'])))
+    # the same real functions, compared with the REPAIRED model searches (ops `span linr` / `span binr`)
+    if k == 'span-linr' or (k == 'span-end' and d['search'] == 'linr'):
+        return str(helpers.find_span_linear(d['p'], _kv(d), d['n'], q(d['u'])))
+    if k == 'span-binr' or (k == 'span-end' and d['search'] == 'binr'):
         return str(helpers.find_span_binsearch(d['p'], _kv(d), d['n'], q(d['u'])))
     if k == 'mult':
         return str(helpers.find_multiplicity(q(d['u']), _kv(d)))
@@ -206,7 +237,7 @@ def oracle(c):
             if got != want:
                 return "basis_function_one(i=%d) = %s at the domain end, the Cox-de Boor left limit (= the A2.2 entry) is %s" % (i, fr(got), fr(want))
         return None
-    if k in ('span-lin', 'span-bin', 'basis', 'basisall', 'basisone', 'bders', 'bdersone', 'mult'):
+    if k in ('span-lin', 'span-bin', 'span-linr', 'span-binr', 'basis', 'basisall', 'basisone', 'bders', 'bdersone', 'mult'):
         p, n, kv, u = d['p'], d['n'], d['kv'], d['u']
         U = _kv(d); uu = q(u)
         ks = helpers.find_span_linear(p, U, n, uu)
